@@ -13,6 +13,9 @@ Moves:  l:<j>:<m>  a rear block (index j of the groups placed so far) is
         e:<tags>:<B|b>   the bin (tags = positions of its operations in the
                 input's iteration order) is placed as a block / bare barrier
         f       the popped block and the placed bin become one block
+BinSpec events (second list): every `Bin.add_op` (which bin takes the next
+operation; `BarrierBin`s marked), the end of the scan, and every placement with
+the real `Bin.starts` / `Bin.ends` of the placed bin.
 """
 from __future__ import annotations
 
@@ -30,12 +33,46 @@ def traced_run(c, k):
     moves: list[str] = []
     mirror: list[frozenset] = []      # qudit sets of the groups placed so far
     state = {'tags': None, 'lifts': 0}
+    nops = len(tag_of)
+    # BinSpec events: a:<bin> / r:<bin> (Bin.add_op), fin, e:<bin>:<q,start,end+1;...>
+    bmoves: list[str] = []
+    bin_no: dict[int, int] = {}       # Bin.id -> small number, first seen first
+    bin_obj: dict[int, object] = {}
+    bin_of_tag: dict[int, int] = {}
+    bstate = {'adds': 0, 'fin': False}
+
+    orig_add_op = quick.Bin.add_op
+
+    def add_op(self, point, location):
+        t = tag_of[(point[0], point[1])]
+        if t != bstate['adds']:
+            raise AssertionError('tracer: operations binned out of order')
+        b = bin_no.setdefault(self.id, len(bin_no))
+        bin_obj[b] = self
+        bin_of_tag[t] = b
+        bstate['adds'] += 1
+        bmoves.append(('r:' if isinstance(self, quick.BarrierBin) else 'a:')
+                      + str(b))
+        return orig_add_op(self, point, location)
 
     orig_get_slice = Circuit.get_slice
 
     def get_slice(points):
         state['tags'] = sorted(tag_of[(p[0], p[1])] for p in points)
         state['lifts'] = 0
+        if bstate['adds'] == nops and not bstate['fin']:
+            bmoves.append('fin')
+            bstate['fin'] = True
+        bs = {bin_of_tag[t] for t in state['tags']}
+        if len(bs) != 1:
+            raise AssertionError('tracer: a placed bin mixes bins')
+        b = bs.pop()
+        bn = bin_obj[b]
+        ivs = ';'.join(
+            f'{q},{bn.starts[q]},'
+            + ('n' if bn.ends[q] is None else str(bn.ends[q] + 1))
+            for q in bn.qudits)
+        bmoves.append(f'e:{b}:{ivs}')
         return orig_get_slice(c, points)
 
     class Traced(Circuit):
@@ -71,17 +108,28 @@ def traced_run(c, k):
 
     saved = quick.Circuit
     quick.Circuit = Traced
+    quick.Bin.add_op = add_op
     c.get_slice = get_slice          # instance attribute shadows the method
     try:
         from harness.c08 import make_data
         asyncio.run(quick.QuickPartitioner(k).run(c, make_data(c)))
     finally:
         quick.Circuit = saved
+        quick.Bin.add_op = orig_add_op
         try:
             del c.get_slice
         except AttributeError:
             pass
-    return moves
+    return moves, bmoves
+
+
+def render_bins(r, before, bmoves):
+    """the `bins` driver line (BinSpec replay); the answer must be `ok`"""
+    ops = [f'{cyc}@{r.op_text(op)}'
+           for cyc, op in before.operations_with_cycles()]
+    bg = ' '.join(map(str, sorted(r.barrier_gids)))
+    return (f'bins {bg} | {before.num_cycles} | '
+            + ('+'.join(ops) if ops else '-') + ' | ' + ' '.join(bmoves))
 
 
 def render_events(r, before, moves, k, after):
